@@ -7,6 +7,7 @@ Tree of one worker (T = a fresh directory under the run's mkdtemp directory)::
 
     T/a  T/d/f                     an ancestor's file / directory (outside)
     T/top/a  T/top/d/f             siblings of the root           (outside)
+    T/top/srv2/a                   sibling whose name extends the root's name (outside)
     T/top/srv/                     ROOT the server is started with
     T/top/srv/a (64 B)  d/f (1041 B)  é (0 B)
 
@@ -77,11 +78,13 @@ TREE = {
     "d/f": b"OUTER sentinel in an ancestor's directory\n",
     "top/a": b"SIBLING sentinel\n",
     "top/d/f": b"SIBLING sentinel in a directory\n",
+    # a sibling whose name extends the root's name (string-prefix containment tests accept it)
+    "top/srv2/a": b"LOOK-ALIKE SIBLING sentinel\n",
     "top/srv/a": content_of(64),
     "top/srv/d/f": content_of(65 * 16 + 1),
     "top/srv/é": b"",
 }
-TREE_DIRS = ["d", "top", "top/d", "top/srv", "top/srv/d"]
+TREE_DIRS = ["d", "top", "top/d", "top/srv2", "top/srv", "top/srv/d"]
 
 
 def build_tree(T):
@@ -316,6 +319,18 @@ class _Remote:
         return self
 
 
+def implemented_methods():
+    """(request methods CoAP knows according to aiocoap.Code, names x for which
+    FileServer has a render_x handler that Resource.render dispatches to)"""
+    aiocoap = require_repo()
+    from aiocoap.cli.fileserver import FileServer
+
+    codes = sorted(str(c) for c in aiocoap.Code if c.is_request())
+    lower = {c.lower() for c in codes}
+    handlers = sorted(n[len("render_") :] for n in dir(FileServer) if n.startswith("render_") and n[len("render_") :] in lower)
+    return codes, handlers
+
+
 class Tree:
     """One worker's temp tree plus everything needed to serve requests on it."""
 
@@ -401,7 +416,7 @@ class Tree:
         from pathlib import Path
         from aiocoap.cli.fileserver import FileServer
 
-        code = getattr(aiocoap.Code, method)
+        code = {str(c): c for c in aiocoap.Code if c.is_request()}[method]
         rec = Recorder(self.T)
         fs = FileServer(Path(self.root), self.log, write=write)
         msg = aiocoap.Message(code=code, uri_path=tuple(comps), **opts)
@@ -433,7 +448,7 @@ class Tree:
                 opts["if_match"] = [b""]
         if c == "inm":
             opts["if_none_match"] = True
-        if m in ("PUT", "POST", "FETCH"):
+        if m not in ("GET", "DELETE"):
             opts["payload"] = PUT_PAYLOAD
         resp, rec = self.request(m, w, comps, **opts)
         recs.append(rec)
